@@ -14,7 +14,8 @@
 
    impl(c) = declared(c) ∪ (if inherit(c) then ⋃ impl(b), b a base of c): [impl_lo] with
    declared = kept, [impl_hi] with declared = asked.  "Redundant when made" means: already in the
-   closure of impl_lo(c) at that moment (what the class implies if every redundant declaration
+   closure of impl_lo(c) at that moment  (an old-style ``__implemented__`` class attribute is a declaration
+   like an *only* form made with the class: kept, and nothing is inherited) (what the class implies if every redundant declaration
    so far was dropped).  alsoProvides and noLongerProvides are, as documented, a directlyProvides
    of the object's current direct declarations plus / minus the argument: the moment of
    declaration of the whole net set is the moment of that call.
@@ -145,9 +146,12 @@ Definition nargs_hi (L : ledger) (l : list arg) : list iface := flat_map (narg_h
 
 Definition lstep (g : igraph) (L : ledger) (o : op) : ledger :=
   match o with
-  | NewClass bs m bi =>
+  | NewClass bs m bi old =>
       let n := length (lcs L) in
-      mkL (lcs L ++ [mkLC (dedup (filter (fun b => Nat.ltb b n) bs)) [] [] true [] []
+      mkL (lcs L ++ [mkLC (dedup (filter (fun b => Nat.ltb b n) bs))
+                          (match old with Some l => l | None => [] end)
+                          (match old with Some l => l | None => [] end)
+                          (match old with Some _ => false | None => true end) [] []
                           (match m with Some l => l | None => [] end) bi]) (los L)
   | NewInstance c =>
       if Nat.ltb c (length (lcs L)) then mkL (lcs L) (los L ++ [mkLO c true [] []]) else L
